@@ -156,6 +156,7 @@ type Chain struct {
 	nextAuth int
 	low      map[int]bool // endorsors believed to be below the endorsement
 	Spare    []Acct // extra master candidates that governance txs may add
+	poor     Acct   // an account without VET / VTHO
 }
 
 func newAcct(r *hx.Rand) Acct {
@@ -195,6 +196,7 @@ func New(spec *Spec) (*Chain, error) {
 		c.Spare = append(c.Spare, newAcct(c.R))
 	}
 	c.Exec = newAcct(c.R)
+	c.poor = newAcct(c.R)
 	gen := &genesis.CustomGenesis{LaunchTime: LaunchTime, GasLimit: spec.GenesisGL, ForkConfig: c.Fork, ExtraData: fmt.Sprintf("cg%d", spec.Seed%1000)}
 	bal := (*genesis.HexOrDecimal256)(bigE18(1_000_000_000))
 	add := func(a thor.Address) {
@@ -730,4 +732,12 @@ func Dprp(pn uint32, t uint64) uint64 {
 	binary.BigEndian.PutUint32(b4[:], pn)
 	binary.BigEndian.PutUint64(b8[:], t)
 	return binary.BigEndian.Uint64(thor.Blake2b(b4[:], b8[:]).Bytes())
+}
+
+// Poor is an account that owns nothing (its transactions cannot pay for gas).
+func (c *Chain) Poor() Acct { return c.poor }
+
+// RevertingClause is a call that reverts in the VM: a VTHO transfer above any balance.
+func (c *Chain) RevertingClause(to thor.Address) (thor.Address, []byte) {
+	return mustInput("energy.transfer", to, bigE18(1_000_000_000_000))
 }
